@@ -105,9 +105,9 @@ typedef struct {
 	const char *alg_text;  /* alg when it is a string, else NULL */
 } hd_t;
 
-static hd_t HD[48];
+static hd_t HD[64];
 static int NHD;
-static char hd_store[48][96];
+static char hd_store[64][96];
 
 static void add_hd_str(const char *alg)
 {
@@ -130,7 +130,9 @@ static void init_headers(void)
 {
 	for (int i = 0; i < 15; i++)
 		add_hd_str(tok_alg_names[i]);
-	static const char *variants[] = { "hs256", "Hs256", "NONE", "None", "eddsa", "EDDSA", "rs256", "es256", "HS256x", "HS25", "", " HS256", "XS999" };
+	static const char *variants[] = { "hs256", "Hs256", "NONE", "None", "eddsa", "EDDSA", "rs256", "es256", "HS256x", "HS25", "", " HS256", "XS999",
+					  /* what a number parser would let through between the family letters and the size */
+					  "HS 256", "HS+256", "HS0256", "HS\\t256", "RS 256", "RS+256", "ES0256", "PS 256", "ES +0384", "HS256 ", "HS-256", "HS256.0", "Ed DSA", "none " };
 	for (unsigned i = 0; i < sizeof variants / sizeof *variants; i++)
 		add_hd_str(variants[i]);
 	add_hd_raw("<missing>", "{\"typ\":\"JWT\"}");
@@ -692,7 +694,8 @@ static void enumerate_c02(void)
 								continue;
 							if (sk == SK_HMAC_PUBPEM && (hf != RC_FAM_HS || !p || !p->vk))
 								continue;
-							if (sk == SK_NATURAL && (!p || ha >= JWT_ALG_INVAL || ha == JWT_ALG_NONE))
+							/* also under headers that name no algorithm at all: a lenient name parser would take them for the key's own */
+							if (sk == SK_NATURAL && (!p || ha == JWT_ALG_NONE))
 								continue;
 							if (!vf_case("checker alg=%s key=%s key.alg=%s route=%s header=%s sig=%s",
 								     A < 15 ? tok_alg_names[A] : "INVAL", p ? p->name : "absent",
